@@ -232,7 +232,8 @@ impl BobState {
                             });
                         }
                     }
-                    let last_progress = self.progress.take().unwrap();
+                    // keep the last good progress: `into_outcome` must work after an error too
+                    let last_progress = self.progress.clone().unwrap_or_default();
                     let next = sync
                         .sync_process_message(
                             namespace,
@@ -246,7 +247,7 @@ impl BobState {
                 }
                 (Message::Sync(msg), Some(namespace)) => {
                     trace!("recv process message");
-                    let last_progress = self.progress.take().unwrap();
+                    let last_progress = self.progress.clone().unwrap_or_default();
                     sync.sync_process_message(*namespace, msg, *self.peer.as_bytes(), last_progress)
                         .await
                 }
@@ -287,7 +288,7 @@ impl BobState {
 
     /// Consume self and get the [`SyncOutcome`] for this connection.
     pub fn into_outcome(self) -> SyncOutcome {
-        self.progress.unwrap()
+        self.progress.unwrap_or_default()
     }
 }
 
